@@ -23,11 +23,15 @@ META = dict(
           "axis), so a line sits at its transition energy on the returned axis; the result is linear in the dipole "
           "strength; _calculate_monomer attaches exactly that axis and multiplies by the frequency unless raw; "
           "_excitonic_coft is the sum over site pairs of |c_k|^2 |c_l|^2 C_kl(t) with the coefficients of the requested "
-          "exciton (column of the eigenvector matrix)."),
+          "exciton (column of the eigenvector matrix). _calculate_aggregate (2-4 states, with and without a supplied "
+          "relaxation tensor) is proved to follow the transformation protocol that leaves the system as it was: the "
+          "Hamiltonian is diagonalised and transformed back with inv(SS), the dipole operator and a supplied tensor are "
+          "transformed with SS and back with inv(SS), each exactly once (stand-ins that record the calls; S then S^-1 is "
+          "the identity by the similarity lemma of C04)."),
     note=("numpy.fft.hfft / fftshift modelled by their definitions over W(k, n) = exp(2 pi i k/n) (periodic); exp(i w_k t_m) "
-          "on the conjugate grids is W(q m, 2N); the line-shape function (spline quadrature), the aggregate calculation "
-          "(diagonalisation, back-transformation: 'system left unchanged'), rotation invariance, the sum rule and the "
-          "calculation from dynamics are not under contract."),
+          "on the conjugate grids is W(q m, 2N); the line-shape function (spline quadrature), the values summed over the "
+          "excitons in the aggregate calculation, rotation invariance, the sum rule and the calculation from dynamics are "
+          "not under contract; in _calculate_aggregate the Hamiltonian, dipole operator and tensor are recording stand-ins."),
     technique="VCs from the real AST with cell-wise models of numpy.fft (hfft, fftshift), z3",
 )
 
@@ -79,6 +83,76 @@ def contracts(reg):
                             "(SS[k+1,n+1]*SS[k+1,n+1])*(SS[l+1,n+1]*SS[l+1,n+1])*cc[k,l,t])) + Sum(l, range(0, _i), "
                             "(SS[kk+1,n+1]*SS[kk+1,n+1])*(SS[l+1,n+1]*SS[l+1,n+1])*cc[kk,l,t]))"], modifies=["ct"])}))
 
+    # ---- the aggregate calculation: what is transformed into the exciton basis is transformed back with the inverse ---------------------
+    # Ghost protocol: the Hamiltonian, the dipole operator and a supplied relaxation tensor are stand-ins that record the
+    # transformations applied to them; by the similarity lemma of C04 (S then S^-1 is the identity) the recorded sequence
+    # [into the eigenbasis with SS, back with inv(SS)] leaves each of them as it was.  The sum over excitons is formed from
+    # call-site summaries of one_transition_spectrum / _excitonic_coft (their contracts are above).
+    def setup_agg(S, dim, with_tensor):
+        internal_units_manager(S)
+        nt = S.int("Nt")
+        SS = S.array("SS", (dim, dim), "real")
+        log = {"HH": [], "DD": [], "RR": []}
+        S.ex.transform_log = log
+
+        def tag(x):
+            if x is SS:
+                return "SS"
+            if getattr(x, "inverse_of", None) is SS:
+                return "inv(SS)"
+            return "other"
+
+        def recorder(who):
+            return Builtin(who + ".transform", lambda ex, a, k, l: log[who].append("transform:" + tag(a[0])))
+        HH = S.obj("Hamiltonian(stub)", label="HH", dim=dim, data=S.array("Hdata", (dim, dim), "real"),
+                   diagonalize=Builtin("HH.diagonalize", lambda ex, a, k, l: (log["HH"].append("diagonalize"), SS)[1]),
+                   transform=recorder("HH"))
+        DD = S.obj("TransitionDipoleMoment(stub)", label="DD", transform=recorder("DD"),
+                   dipole_strength=Builtin("DD.dipole_strength", lambda ex, a, k, l: S.fresh_real("dd")))
+        system = S.obj("Aggregate(stub)", label="system", _has_system_bath_coupling=S.bool("had_sbc"),
+                       get_Hamiltonian=Builtin("system.get_Hamiltonian", lambda ex, a, k, l: HH),
+                       get_TransitionDipoleMoment=Builtin("system.get_TransitionDipoleMoment", lambda ex, a, k, l: DD))
+        ta = S.obj("TimeAxis(stub)", label="ta", length=nt, step=S.real("dt"))
+        fa = S.obj("FrequencyAxis(stub)", label="fa", data=S.array("fdata", (V.arith("*", 2, nt),), "real"))
+        me = S.obj(A[:-1], label="self", system=system, TimeAxis=ta, frequencyAxis=fa, rwa=S.real("rwa"),
+                   one_transition_spectrum=Builtin("self.one_transition_spectrum",
+                                                   lambda ex, a, k, l: S.fresh_array((nt,), "cx", prefix="line")),
+                   _excitonic_coft=Builtin("self._excitonic_coft", lambda ex, a, k, l: S.fresh_array((nt,), "cx", prefix="ct")))
+        RR = None
+        if with_tensor:
+            RR = S.obj("RelaxationTensor(stub)", label="RR", data=S.array("Rdata", (dim, dim, dim, dim), "cx"), transform=recorder("RR"))
+        return dict(self=me, relaxation_tensor=RR, relaxation_hamiltonian=None, rate_matrix=None, raw=S.bool("raw"), Nt=nt)
+
+    def agg_hook(ex, cinfo, args, kwargs, line):
+        if cinfo.name == "FrequencyAxis" and (ex.registry.under_proof or "").split("#")[0].endswith("_calculate_aggregate"):
+            n = args[1]
+            return (Obj("FrequencyAxis(stub)", {"data": SymArr((n,), "real", name="newaxis"), "length": n}),)
+        if cinfo.name == "AbsSpectrum":
+            return (Obj("AbsSpectrum(stub)", {"axis": kwargs.get("axis"), "data": kwargs.get("data")}),)
+        return None
+    reg.models.hooks_instantiate.insert(0, agg_hook)
+    orig_isinstance = T["isinstance"]
+
+    def isinstance_stub(ex, a, k, l):
+        if isinstance(a[0], Obj) and isinstance(a[0].cls, str) and a[0].cls.endswith("(stub)"):
+            return False          # the stand-in tensor is time-independent
+        return orig_isinstance.fn(ex, a, k, l)
+    T["isinstance"] = Builtin("isinstance", isinstance_stub)
+
+    def ghost_agg(S, env):
+        log = S.ex.transform_log
+        env["HH_calls"], env["DD_calls"], env["RR_calls"] = list(log["HH"]), list(log["DD"]), list(log["RR"])
+    for dim in (2, 3, 4):
+        for with_tensor in (False, True):
+            reg.add(Contract(A + "_calculate_aggregate#%d-states-%s" % (dim, "with-tensor" if with_tensor else "no-tensor"),
+                             setup=(lambda S, d=dim, w=with_tensor: setup_agg(S, d, w)), ghost=ghost_agg, requires=["Nt >= 2"],
+                             ensures=[("hamiltonian-diagonalised-then-transformed-back-with-the-inverse",
+                                       "HH_calls == ['diagonalize', 'transform:inv(SS)']"),
+                                      ("dipole-operator-transformed-and-transformed-back-with-the-inverse",
+                                       "DD_calls == ['transform:SS', 'transform:inv(SS)']"),
+                                      ("relaxation-tensor-transformed-and-transformed-back-with-the-inverse",
+                                       "RR_calls == %s" % (["transform:SS", "transform:inv(SS)"] if with_tensor else []))]))
+
 
 class _ZeroLen:
     """stand-in for the first monomer's correlation function: only its length is used"""
@@ -90,13 +164,15 @@ def plan(ctx):
     p = Plan("C11")
     contracts(ctx.registry)
     ctx.registry.models.table["len"] = _len_with(ctx.registry.models.table["len"])
-    p.functions = [A + "one_transition_spectrum#no-bath", A + "_excitonic_coft"]
+    p.functions = [A + "one_transition_spectrum#no-bath", A + "_excitonic_coft"] + \
+                  [A + "_calculate_aggregate#%d-states-%s" % (d, t) for d in (2, 3, 4) for t in ("no-tensor", "with-tensor")]
     p.level = "other"
     p.oracles = ["native/oracle_C11.py"]
     p.trusted = ["numpy.fft.hfft(a, n) is the real transform of the Hermitian extension of a (documented definition); "
                  "W(k, n) = exp(2 pi i k / n) is periodic in k with period n"]
     p.not_decided = ["line-shape function g(t) (spline quadrature of the bath correlation function)",
-                     "the aggregate calculation: diagonalisation, back-transformation ('system left unchanged'), sum over excitons",
+                     "the aggregate calculation: values of the sum over excitons (the transformation protocol is under contract); "
+                     "that the classes' transform() methods implement the similarity action (C04)",
                      "rotation / relabelling invariance, sum rule, calculation from dynamics, mock calculator"]
     return p
 
